@@ -588,12 +588,12 @@ pub fn run(ctx: &Ctx) {
     ctx.rule("cases: 32-byte key candidates (uniform, derived from secrets, near-p/non-canonical y, 1-bit edits), strings built from valid encodings with 0-2 edits, sign/verify tuples, custom addresses (id over u64, payload length dense around 30/31), endpoint addresses with postcard edits, raw byte strings; non-trivial = input accepted by a parser, or at a length boundary (32 bytes / 50-54 / 62-66 chars / 26-34 payload bytes), or an edited encoding");
     ctx.assume("ed25519-dalek/curve25519-dalek called directly and a num-bigint point check serve as independent references");
     let k = ctx.tier.pick(1, 10);
-    ctx.explore("pk_bytes", ExploreOpts::new(12_000 * k), pk_bytes_strategy, pk_bytes);
-    ctx.explore("pk_string", ExploreOpts::new(12_000 * k), pk_string_strategy, pk_string);
-    ctx.explore("sign", ExploreOpts::new(3_000 * k), sign_strategy, sign_case);
-    ctx.explore("custom_addr", ExploreOpts::new(10_000 * k), custom_strategy, custom_case);
-    ctx.explore("endpoint_addr", ExploreOpts::new(8_000 * k), ea_strategy, ea_case);
-    ctx.explore("raw_bytes", ExploreOpts::new(15_000 * k), raw_strategy, raw_case);
+    ctx.explore("pk_bytes", ExploreOpts::new(40_000 * k), pk_bytes_strategy, pk_bytes);
+    ctx.explore("pk_string", ExploreOpts::new(40_000 * k), pk_string_strategy, pk_string);
+    ctx.explore("sign", ExploreOpts::new(8_000 * k), sign_strategy, sign_case);
+    ctx.explore("custom_addr", ExploreOpts::new(40_000 * k), custom_strategy, custom_case);
+    ctx.explore("endpoint_addr", ExploreOpts::new(24_000 * k), ea_strategy, ea_case);
+    ctx.explore("raw_bytes", ExploreOpts::new(50_000 * k), raw_strategy, raw_case);
     ctx.fuzz_campaign("c02_bytes", ctx.tier.pick(0, 3_000_000), 512, fuzz_seeds(), &fuzz_bytes);
     let _ = IpAddr::V4(Ipv4Addr::LOCALHOST);
 }
